@@ -2,7 +2,7 @@
 import re
 from .core import ast as A
 from .core import common
-from .core.mir import callee_name, op_place
+from .core.mir import callee_name, op_place, strip_generics as strip_g
 from .core.effects import provenance
 from .core.slicing import origins, origin_calls
 from .core.symexpr import expr, show, strip_refs
@@ -173,6 +173,71 @@ def run(ctx):
                 ctx.violate("C20.2", "Metadata::snapshot", "snapshot-not-whole-state", snap.relfile, ser[0].line, "snapshot serialises %s" % g[-80:])
         else:
             ctx.violate("C20.2", "Metadata::snapshot", "snapshot-serialize-sites", snap.relfile, snap.line, "%d serialize calls" % len(ser))
+        # what snapshot returns is the encoding of the state as it is NOW: every value it returns comes out of the serialize
+        # call of this invocation - or, if it may hand out bytes kept in another field of the state machine (a cache), that
+        # field is reset on every way out of apply / restore that lies behind a change to the state
+        from .core.readflags import _value_defs
+        from .core.mir import op_local as _ol
+
+        def _fields_read(body, start):
+            src_ = origins(body, start, follow_all_calls=True)[0]
+            return {o.what[1] for o in src_ if o.kind == "field" and str(o.what[0]).endswith("metadata::Metadata")}, {o.what for o in src_ if o.kind == "call"}
+        caches = set()
+        for vsite, vrv in _value_defs(snap, 0):
+            if vrv["k"] == "call":
+                node = vrv["node"]
+                flds, calls_ = set(), {strip_g(node.get("callee") or "")}
+                for a_ in node.get("args", []):
+                    f2, c2 = _fields_read(snap, a_)
+                    flds |= f2
+                    calls_ |= c2
+            elif vrv["k"] == "use":
+                flds, calls_ = _fields_read(snap, vrv["op"])
+            else:
+                flds, calls_ = set(), set()
+            if "bincode::serialize" not in calls_:
+                caches |= (flds - {"state"}) or {"?"}
+        ap_b = next((b_ for n_, b_ in facts.bodies.items() if n_.endswith("StateMachineTrait>::apply")), None)
+        if not caches:
+            ctx.ok("C20.2", "Metadata::snapshot", "every value snapshot returns is encoded from the state in that call", snap.relfile, snap.line)
+        elif "?" in caches or ap_b is None:
+            ctx.violate("C20.2", "Metadata::snapshot", "snapshot-returns-bytes-not-encoded-in-this-call", snap.relfile, snap.line,
+                        "snapshot can return a value that does not come out of its own serialisation of the state")
+        else:
+            bad = None
+            for body in (ap_b, rest_b):
+                muts = []
+                for site, st in body.assigns():
+                    p_ = st["place"]
+                    if any(e == "*" for e in p_["p"]) and ((p_["p"] and isinstance(p_["p"][-1], dict) and re.search(r"(TopicState|ClusterState)$", str(p_["p"][-1].get("o") or ""))) or (p_["p"] == ["*"] and "ClusterState" in body.local_ty(p_["l"]))):
+                        muts.append(site)
+                for c in body.calls(re.compile(r"(HashMap|BTreeMap|HashSet|Vec)(::<[^>]*>)?::(insert|push|remove|retain|clear|extend)$")):
+                    pr_ = provenance(body, c.node["args"][0]) if c.node["args"] else set()
+                    if any(o.kind == "field" and re.search(r"(TopicState|ClusterState)$", str(o.what[0])) for o in pr_):
+                        muts.append(c)
+                resets = set()
+                for site, st in body.assigns():
+                    pr_ = provenance(body, {"k": "copy", "place": {"l": st["place"]["l"], "p": []}}) if st["place"]["p"] else set()
+                    if any(o.kind == "field" and o.what[1] in caches for o in pr_):
+                        resets.add(site.bb)
+                # the reset takes the cache's own lock first: reaching that acquisition counts (a poisoned lock aside)
+                for c in body.calls(re.compile(r"(Mutex|RwLock)(::<[^>]*>)?::(lock|write)$")):
+                    pr_ = provenance(body, c.node["args"][0]) if c.node["args"] else set()
+                    if any(o.kind == "field" and o.what[1] in caches for o in pr_) and resets:
+                        resets.add(c.bb)
+                for c in body.calls(re.compile(r"::(take|clear|replace)$")):
+                    pr_ = provenance(body, c.node["args"][0]) if c.node["args"] else set()
+                    if any(o.kind == "field" and o.what[1] in caches for o in pr_):
+                        resets.add(c.bb)
+                for m_ in muts:
+                    if not body.must_pass([m_.bb], body.return_blocks(), resets):
+                        bad = bad or (body, m_)
+            if bad:
+                ctx.violate("C20.2", "Metadata::snapshot", "cached-snapshot-survives-a-state-change", bad[0].relfile, bad[1].line,
+                            "snapshot can hand out bytes kept in %s, and %s can change the state (line %s) and return without resetting it: a snapshot built afterwards carries the "
+                            "state as of an earlier snapshot, and the replica that installs it diverges from the sender" % (sorted(caches), common.short_fn(bad[0].name), bad[1].line))
+            else:
+                ctx.ok("C20.2", "Metadata::snapshot", "bytes kept in %s are reset behind every change to the state in apply and restore" % sorted(caches), snap.relfile, snap.line)
         de = rest_b.calls(re.compile(r"^bincode::deserialize$"))
         if len(de) == 1 and "ClusterState" in (de[0].node.get("callee_generic") or ""):
             ctx.ok("C20.2", "Metadata::restore", "deserialises a ClusterState", rest_b.relfile, de[0].line)
